@@ -556,8 +556,8 @@ pub fn run_batch(prop: Box<dyn Property>, tier: Tier) -> BatchResult {
             "function_table": if crate::funcs::scraped_live() { "scraped from /repo/src/functions at build time" } else { "committed snapshot (scrape failed)" },
             "components": {
                 "real": ["jawk library (jawk::go, release build of the working tree)", "clap argument parsing", "regex, indexmap, cached, bigdecimal, chrono", "std::io::Bytes, BufReader, Write::write_all"],
-                "stub": ["Read object behind the stdin factory (SimSource)", "Read objects behind the input-file opener, one per file argument (SimSource, hook H2; jawk's own BufReader on top is real)", "stdout and stderr Write objects (SimSink)"],
-                "process_level": if prop.id() == "C20" { "real binary + real std stdio; libc read/write/writev on fds 0-2 and read on the descriptors of planned file arguments (open/openat interposed) scripted by the LD_PRELOAD shim; preset stdin/stdout/stderr objects (closed, directory, /dev/full, closed pipe, drained pipe)" } else if prop.id() == "C14" { "real binary with its standard input on a pipe fed by a producer thread (endless-process family only)" } else if prop.process_level() { "real binary whose read/write calls on fds 0-2 are logged, not altered, by the LD_PRELOAD shim (one scenario in 25)" } else { "not used by this check" }
+                "stub": ["Read object behind the stdin factory (SimSource)", "Read objects behind the input-file opener, one per file argument (SimSource, hook H2; jawk's own BufReader on top is real)", "stdout and stderr Write objects (SimSink)", "listings of directory arguments (SimListing, hook H3: entry order and failures; the directories and placeholder files exist on /dev/shm because jawk's exists()/is_dir() tests are real)"],
+                "process_level": if prop.id() == "C20" { "real binary + real std stdio; libc read/write/writev on fds 0-2 and read on the descriptors of planned file arguments (open/openat interposed) and opendir/readdir64 on planned directories scripted by the LD_PRELOAD shim; the null device and named pipes as file arguments; preset stdin/stdout/stderr objects (closed, directory, /dev/full, closed pipe, drained pipe)" } else if prop.id() == "C14" { "real binary with its standard input on a pipe fed by a producer thread (endless-process family only)" } else if prop.process_level() { "real binary whose read/write calls on fds 0-2 are logged, not altered, by the LD_PRELOAD shim (one scenario in 25)" } else { "not used by this check" }
             },
             "exhaustive": false
         }
